@@ -259,7 +259,12 @@ func tlsHello(r *rand.Rand) string {
 	}
 	b := []byte{0x16, maj, ver, 0x02, 0x00, 0x01, 0x00, 0x01, 0xfc, 0x03, 0x03}
 	for i := 0; i < 506; i++ {
-		b = append(b, byte(r.Intn(256)))
+		// no '"' and no '{': strings and literals cut by a disconnect are classes of their own
+		c := byte(r.Intn(256))
+		for c == '"' || c == '{' {
+			c = byte(r.Intn(256))
+		}
+		b = append(b, c)
 	}
 	// a real hello holds arbitrary bytes, line feeds included
 	b[40], b[41] = '\r', '\n'
